@@ -82,6 +82,7 @@ type c18Case struct {
 	Stream    string   `json:"stream"`
 	GenOffset int64    `json:"genesis_offset_s"`
 	Epp       int64    `json:"epochs_per_period"`
+	Ident     string   `json:"epoch_identifier,omitempty"` // inflation's epoch identifier at genesis ("" = day)
 	Ops       []c18Op  `json:"ops"`
 	Bad       []c18Bad `json:"bad,omitempty"`
 }
@@ -392,7 +393,7 @@ func (r *c18Run) exec(op c18Op) {
 		err := ch.send(&erc20types.MsgUpdateParams{Authority: c18Gov, Params: erc20types.NewParams(op.A%4 != 3, op.B%2 == 0)})
 		r.count(op, err)
 	default:
-		if r.execGuard(op) {
+		if r.execGuard(op) || r.execExtra(op) {
 			return
 		}
 		panic("c18: unknown op kind " + op.Kind)
@@ -419,7 +420,7 @@ func (e *Env) c18GenOps(stream string, n int) []c18Op {
 		w int
 	}{{"advance", 14}, {"mint", 4}, {"addliq", 9}, {"swap", 6}, {"rmliq", 3}, {"regcoin", 7}, {"deploy", 3}, {"regerc20", 7}, {"toggle", 6}, {"kill", 3},
 		{"csr-enable", 2}, {"csr-deploy", 3}, {"csr-register", 8}, {"csr-assign", 5}, {"proposal", 3}, {"params-coinswap", 3}, {"params-inflation", 3},
-		{"params-onboarding", 3}, {"params-erc20", 2}}
+		{"params-onboarding", 3}, {"params-erc20", 2}, {"inflation-toggle", 4}, {"rmliq-all", 2}}
 	total := 0
 	for _, k := range kinds {
 		total += k.w
@@ -1083,27 +1084,36 @@ var c18BadKinds = map[string][]string{
 func runC18(e *Env) {
 	e.Header("From stdpp Require Import gmap.\nFrom Coq Require Import ZArith List.\nFrom Canto Require Model.TokenPairs Model.Csr.\nFrom Canto Require Import Model.Authority Model.Epochs Model.Genesis Check.Common Check.GenesisCheck.\nImport ListNotations.\nOpen Scope Z_scope.\n")
 	e.ShardSize = 4
-	e.Stats.Rule = "case = generated history on a real chain (InitChain with a genuine bonded validator, non-zero genesis time): coinswap add/remove liquidity and swaps, erc20 register coin / register ERC-20 / toggle / removal after self-destruct, csr enable + Turnstile deployment by BeginBlock + register/assign through signed Ethereum transactions (revenue, tx counters), govshuttle lending-market proposal (port contract), block time advanced through EpochsKeeper.BeginBlocker across day/week boundaries with inflation as listener, parameter updates of coinswap / inflation / csr / onboarding / erc20; then whole-app export from the live deliver context, each module's ValidateGenesis, InitChain of a fresh app from the export, second export without a block, module queries on both; plus malformed documents per module against the real ValidateGenesis; non-trivial = the exported Canto state differs from the default genesis; distinct by hash of the seven exported documents"
+	e.Stats.Rule = "case = generated history on a real chain (InitChain with a genuine bonded validator, non-zero genesis time): coinswap add/remove liquidity and swaps, erc20 register coin / register ERC-20 / toggle / removal after self-destruct, csr enable + Turnstile deployment by BeginBlock + register/assign through signed Ethereum transactions (revenue, tx counters), govshuttle lending-market proposal (port contract), block time advanced through EpochsKeeper.BeginBlocker across day/week boundaries with inflation as listener, parameter updates of coinswap / inflation / csr / onboarding / erc20; stream pools: 14 whitelisted denominations and 10-13 pools (two-digit pool sequence), full liquidity removal; stream inflation: enable_inflation toggled both ways around day/week boundaries; genesis varies epochs_per_period {1,2,3,5,30} and the inflation identifier {day, week}; stream guard-overflow-params: overflowing inflation parameters must be rejected; then whole-app export from the live deliver context, each module's ValidateGenesis, InitChain of a fresh app from the export, second export without a block, module queries on both; plus malformed documents per module against the real ValidateGenesis; non-trivial = the exported Canto state differs from the default genesis; distinct by hash of the seven exported documents"
 	var cases []c18Case
 	if e.Replay != nil {
 		var k c18Case
 		mustUnmarshal(e.Replay, &k)
 		cases = []c18Case{k}
 	} else {
-		n := e.Scale(16, 240)
+		n := e.Scale(24, 240)
 		if e.Tier == "search" {
 			n = 40
 		}
 		for c := 0; c < n; c++ {
 			k := c18Case{GenOffset: e.Rng.Int63n(1_000_000_000), Epp: []int64{1, 2, 3, 5, 30}[e.Pick(5)]}
+			if e.Chance(0.25) {
+				k.Ident = "week"
+			}
 			switch {
 			case c == 0:
 				k.Stream = "empty"
 				k.Ops = []c18Op{}
-			case c%5 == 1:
+			case c%4 == 1:
+				k.Stream = "pools"
+				k.Ops = e.c18GenPoolsOps()
+			case c%8 == 2:
+				k.Stream = "inflation"
+				k.Ops = e.c18GenInflationOps()
+			case c%8 == 3:
 				k.Stream = "sparse"
 				k.Ops = e.c18GenOps("sparse", 3+e.Pick(10))
-			case c%5 == 2:
+			case c%8 == 6:
 				k.Stream = "epochs"
 				k.Ops = e.c18GenOps("epochs", 25+e.Pick(e.Scale(25, 60)))
 			default:
@@ -1126,7 +1136,7 @@ func runC18(e *Env) {
 		if k.Epp <= 0 {
 			k.Epp = 30
 		}
-		ch := c18NewChain(GenesisTime.Add(time.Duration(k.GenOffset)*time.Second), k.Epp)
+		ch := c18NewChain(GenesisTime.Add(time.Duration(k.GenOffset)*time.Second), k.Epp, k.Ident)
 		r := &c18Run{e: e, ch: ch}
 		for _, op := range k.Ops {
 			r.exec(op)
@@ -1242,6 +1252,7 @@ func runC18(e *Env) {
 			e.Stats.Count(fmt.Sprintf("epoch-%s-number:%d", x.Identifier, c18Bucket(int(x.CurrentEpoch))))
 		}
 		e.Stats.Count(fmt.Sprintf("imported:%v", imported))
+		r.coverStats(d1)
 		r.guardReport(c, k, valid[3], imported, failure)
 		e.Stats.Sample(k)
 	}
